@@ -11,6 +11,7 @@ TNext == /\ n < Len(Obs)
          /\ bad' = CASE Obs[n + 1].kind = "replay" -> D!Judge(Obs[n + 1].obs)
                      [] Obs[n + 1].kind = "module" -> A!Judge(Obs[n + 1].obs)
                      [] Obs[n + 1].kind = "style" -> A!JudgeStyle(Obs[n + 1].obs)
+                     [] Obs[n + 1].kind = "pkgfile" -> A!JudgePkgFile(Obs[n + 1].obs)
                      [] Obs[n + 1].kind = "cache" -> D!JudgeCache(Obs[n + 1].obs)
 TSpec == TInit /\ [][TNext]_<<n, bad>>
 Report == bad = {} \/ PrintT(ToJson([id |-> Obs[n].id, bad |-> bad]))
